@@ -1612,7 +1612,7 @@ def src_search(ctx):
                 # (1) the derived object alone: it must be a snapshot of the receiver's VALUE (remaining bits, remaining references)
                 h = rerun(ctx, {'init': SRC_CELLS, 'steps': steps})
                 src = int(steps[-1].split(':')[1])
-                if not ctx.failures and len(h.pool.objs) == src + 2 and h.cut is None:
+                if not ctx.failures and len(h.pool.objs) == src + 2:
                     a, b = h.pool.objs[src], h.pool.objs[src + 1]
 
                     def value(o):
